@@ -518,6 +518,21 @@ def sMagic : List Step → List Step
   | (op, arg) :: r => if op == "." || op == "P" then ("[", arg) :: r else (op, arg) :: r
   | [] => []
 
+/-- `mutation._s_first_item(path)` (called by `Assign.__init__` / `Delete.__init__`): the first step of
+    an S-rooted destination written with an op of the extracted table is re-spelled with the op the
+    table gives (`S.a` / `Path(S, 'a')` → `S['a']`), so that the re-rooted path (`from_t()`, evaluated
+    against `scope[UP]`) names the scope variable like the reading side does -/
+def respellFirst (tbl : List (String × String)) : List Step → List Step
+  | (op, arg) :: r =>
+    (match tbl.find? (·.1 == op) with
+     | some (_, op') => (op', arg) :: r
+     | none => (op, arg) :: r)
+  | [] => []
+
+/-- the path `Assign.__init__` / `Delete.__init__` keep (`_orig_path`) for the path they are given -/
+def initPath (tbl : List (String × String)) (sroot : Bool) (orig : List Step) : List Step :=
+  if sroot then respellFirst tbl orig else orig
+
 /-- the steps an evaluated path performs from its root -/
 def readSteps (sroot : Bool) (rd : List Step) : List Step := if sroot then sMagic rd else rd
 
